@@ -58,7 +58,11 @@ Inductive label :=
                                  queues a Tdiscarded on the (open) transport *)
 | Answered                    (* the peer's reply for this tag is processed (_ProcessTaggedReply clears Tag.KEY) *)
 | ConnClosed                  (* the connection the request was written to is closed *)
-| Discard (tag : Z).          (* a Tdiscarded frame naming tag is written *)
+| Discard (tag : Z)           (* a Tdiscarded frame naming tag is written *)
+| WriteDone.                  (* serial: the last byte of the request reaches the peer (a write may block on back
+                                 pressure). The serial transport arms its own gevent.Timeout at the deadline BEFORE it
+                                 writes, so a write still blocked at the deadline is aborted: the frame can only
+                                 arrive complete while now <= deadline *)
 
 Definition not_entered (q : pos) : bool := match q with NotEntered => true | _ => false end.
 
@@ -187,6 +191,11 @@ Definition step (s : st) (l : label) : option st :=
                   discards := tag :: discards s |}
           else None
       | None => None
+      end
+  | WriteDone =>
+      match p s with
+      | OnWire None => if (deadline s <? now s) || negb (conn_open s) then None else Some s
+      | _ => None
       end
   end.
 
